@@ -54,7 +54,8 @@ def adapt(run):
             out.append({"ev": "End"})
         if "obs" in ev and k != "end":
             o = ev["obs"]
-            out.append({"ev": "ObsBuf", "buf": o.get("buf", [])})
+            if "buf" in o:                                           # (private state: compared only if readable)
+                out.append({"ev": "ObsBuf", "buf": o["buf"]})
             out.append({"ev": "ObsRc", "rc": o["rc"]})
     return out
 
